@@ -80,6 +80,10 @@ func fail(t *rapid.T, w *world.World, format string, args ...any) {
 }
 
 func monitor(t *rapid.T, w *world.World, ev *world.Event, shapes map[string]bool) {
+	if ev.Changed != "" {
+		// the caller holds the returned object and may persist it any time later: what it decrypts to must not drift
+		fail(t, w, "a record object returned by an earlier encrypt was changed during %s: %s", ev.Kind, ev.Changed)
+	}
 	switch ev.Kind {
 	case "open", "close":
 		if ev.Err != nil {
